@@ -6,14 +6,18 @@
 (* (a superset of MC_TrafficLight.cfg and MC_TrafficLight4.cfg).                                                  *)
 (* Differences forced by the tool:                                                                                *)
 (*   - RECURSIVE SumTo is a fold;                                                                                  *)
-(*   - `x % Total(c)` is written as a case split over the (at most MaxElems * MaxDur) values of Total(c), each    *)
-(*     case a remainder by a literal, so that the SMT problem stays linear (Mod below);                            *)
-(*   - quantifiers over 0..Total(c)-1 range over 0..MaxTotal-1 with a guard.                                        *)
-(* Added for the inductive argument (not in MC_TrafficLight): the pair (el, pos) of a controller that STEPS        *)
-(* through the cycle (stay d_i ticks in element i, then go to the next one, cyclically).  IndInv says that the    *)
-(* stepping controller and the closed form ElemAt / Phase agree; its preservation by Tick is LawInOrder and       *)
-(* StepLaw for all t.  DEV_TruncatedRemainder models the remainder of C / numpy.fmod (sign of the dividend)        *)
-(* in place of the floored `%`: wrong exactly for t < off.                                                         *)
+(*   - `x % Total(c)`: every law is split into one conjunct per value m of Total(c), with the literal `% m`       *)
+(*     (PhaseM / ElemAtM / StateAtM below), so that the SMT problem stays linear;                                  *)
+(*   - quantifiers over 0..Total(c)-1 range over 0..MaxTotal-1 with a guard; LawBeforeOffset is the case t < off   *)
+(*     of LawPeriodic, which is proved for every t.                                                                *)
+(* Added for the inductive argument (not in MC_TrafficLight): a controller that STEPS through the cycle - (el, pos):  *)
+(* stay d_el ticks in element el, then go to the next one, cyclically - and the ghost quotient per (completed periods,    *)
+(* negative before the offset).  IndInv is the DEFINING property of the floored remainder,                              *)
+(*     t - off = per * Total + (d_1 + ... + d_(el-1) + pos),   0 <= pos < d_el,                                           *)
+(* written without `%` (per * Total is a sum of at most MaxTotal copies of per), so its preservation by Tick is linear      *)
+(* arithmetic.  Obligation (3) then connects it to the closed form of TrafficLight.tla: el = ElemAt(cyc, off, t) with   *)
+(* ElemAt defined through `%` - for every t.  DEV_TruncatedRemainder models the remainder of C / numpy.fmod (sign of    *)
+(* the dividend) in place of the floored `%` in the closed form: wrong exactly for t < off.                             *)
 EXTENDS Integers, Sequences, FiniteSets, Apalache
 
 (*
@@ -43,8 +47,10 @@ VARIABLES
     \* @type: Int;
     el,
     \* @type: Int;
-    pos
-vars == <<cyc, off, t, el, pos>>
+    pos,
+    \* @type: Int;
+    per
+vars == <<cyc, off, t, el, pos, per>>
 
 (* ---- TrafficLight.tla ---------------------------------------------------------------------------------------- *)
 \* @type: (Seq($elem), Int) => Int;
@@ -53,65 +59,76 @@ SumTo(c, i) == LET \* @type: (Int, Int) => Int;
                IN ApaFoldSeqLeft(Add, 0, <<1, 2, 3, 4>>)                           \* d_1 + ... + d_i  (i <= MaxElems = 4)
 \* @type: Seq($elem) => Int;
 Total(c)    == SumTo(c, Len(c))
-\* floored remainder x % m for m in 1..MaxTotal
-\* @type: (Int, Int) => Int;
-Mod(x, m) == IF m = 1 THEN 0 ELSE IF m = 2 THEN x % 2 ELSE IF m = 3 THEN x % 3 ELSE IF m = 4 THEN x % 4
-             ELSE IF m = 5 THEN x % 5 ELSE IF m = 6 THEN x % 6 ELSE IF m = 7 THEN x % 7 ELSE IF m = 8 THEN x % 8
-             ELSE IF m = 9 THEN x % 9 ELSE IF m = 10 THEN x % 10 ELSE IF m = 11 THEN x % 11 ELSE x % 12
-\* @type: (Seq($elem), Int, Int) => Int;
-Phase(c, o, tt) == IF DEV_TruncatedRemainder /\ tt < o THEN -Mod(o - tt, Total(c)) ELSE Mod(tt - o, Total(c))
+\* Phase(c, off, t) == (t - off) % Total(c).  A remainder by an UNKNOWN divisor is non-linear for the solver, and a case
+\* split over the values of Total(c) inside one formula puts up to MaxTotal different moduli on the same unbounded number
+\* (measured: does not finish).  So the divisor is a parameter m that is a LITERAL at every use: each law below is the
+\* conjunction over m = 1..MaxTotal of  Total(c) = m => law with `% m`  (Apalache checks the conjuncts one by one).
+\* @type: (Int, Int, Int) => Int;
+PhaseM(m, o, tt) == IF DEV_TruncatedRemainder /\ tt < o THEN -((o - tt) % m) ELSE (tt - o) % m
 \* @type: (Seq($elem), Int, Int) => Bool;
 InWindow(c, i, r) == SumTo(c, i - 1) <= r /\ r < SumTo(c, i)
-\* @type: (Seq($elem), Int, Int) => Int;
-ElemAt(c, o, tt) == CHOOSE i \in DOMAIN c : InWindow(c, i, Phase(c, o, tt))
-\* @type: (Seq($elem), Int, Int) => Str;
-StateAt(c, o, tt) == c[ElemAt(c, o, tt)].c
+\* ElemAt(c, off, t) / StateAt(c, off, t) of TrafficLight.tla under the hypothesis Total(c) = m
+\* @type: (Int, Seq($elem), Int, Int) => Int;
+ElemAtM(m, c, o, tt) == CHOOSE i \in DOMAIN c : InWindow(c, i, PhaseM(m, o, tt))
+\* @type: (Int, Seq($elem), Int, Int) => Str;
+StateAtM(m, c, o, tt) == c[ElemAtM(m, c, o, tt)].c
+\* @type: (Int => Bool) => Bool;
+ForAllTotals(Law(_)) == /\ Law(1) /\ Law(2) /\ Law(3) /\ Law(4) /\ Law(5) /\ Law(6)
+                        /\ Law(7) /\ Law(8) /\ Law(9) /\ Law(10) /\ Law(11) /\ Law(12)
 
 \* @type: Seq($elem) => Bool;
 Partition(c)   == \A r \in 0..MaxTotal - 1 : r < Total(c) => Cardinality({i \in DOMAIN c : InWindow(c, i, r)}) = 1
 \* @type: Seq($elem) => Bool;
 Covers(c)      == \A i \in DOMAIN c : Cardinality({r \in 0..MaxTotal - 1 : r < Total(c) /\ InWindow(c, i, r)}) = c[i].d
-\* @type: (Seq($elem), Int, Int) => Bool;
-Periodic(c, o, tt) == StateAt(c, o, tt + Total(c)) = StateAt(c, o, tt)
-\* @type: (Seq($elem), Int) => Bool;
-InOrder(c, o) == \A i \in DOMAIN c : \A k \in 0..MaxDur - 1 : k < c[i].d => ElemAt(c, o, o + SumTo(c, i - 1) + k) = i
-
 (* ---- MC_TrafficLight.tla, no horizon -------------------------------------------------------------------------- *)
 \* @type: Seq($elem) => Bool;
 CycleOK(c) == Len(c) \in 1..MaxElems /\ \A i \in DOMAIN c : c[i].d \in 1..MaxDur /\ c[i].c \in Colors
+\* kk * m for m in 0..MaxTotal, without multiplication of two unknowns
+\* @type: (Int, Int) => Int;
+Times(kk, m) == LET \* @type: (Int, Int) => Int;
+                    Add(acc, j) == acc + (IF j <= m THEN kk ELSE 0)
+                IN ApaFoldSeqLeft(Add, 0, <<1, 2, 3, 4, 5, 6, 7, 8, 9, 10, 11, 12>>)
+\* r is the floored remainder of tt - o by Total(c), kk the quotient
+\* @type: (Seq($elem), Int, Int, Int, Int) => Bool;
+InPhase(c, o, tt, r, kk) == 0 <= r /\ r < Total(c) /\ tt - o = Times(kk, Total(c)) + r
+
 Init == /\ cyc = Gen(MaxElems) /\ CycleOK(cyc)                \* cyc \in Cycles
         /\ off \in 0..MaxOff /\ t = 0
-        /\ el = ElemAt(cyc, off, 0) /\ pos = Phase(cyc, off, 0) - SumTo(cyc, el - 1)
+        /\ \E k0 \in (-MaxOff)..0, r \in 0..(MaxTotal - 1), e \in 1..MaxElems :
+              /\ InPhase(cyc, off, 0, r, k0) /\ e \in DOMAIN cyc /\ InWindow(cyc, e, r)
+              /\ per = k0 /\ el = e /\ pos = r - SumTo(cyc, e - 1)
 Tick == /\ t' = t + 1 /\ UNCHANGED <<cyc, off>>
-        /\ IF pos + 1 < cyc[el].d THEN el' = el /\ pos' = pos + 1
-           ELSE el' = (el % Len(cyc)) + 1 /\ pos' = 0
+        /\ IF pos + 1 < cyc[el].d THEN el' = el /\ pos' = pos + 1 /\ per' = per
+           ELSE /\ el' = (IF el = Len(cyc) THEN 1 ELSE el + 1) /\ pos' = 0
+                /\ per' = (IF el = Len(cyc) THEN per + 1 ELSE per)
 Next == Tick
 
+\* LawPartition / LawCovers / LawInOrder do not mention t (TLC checks them exhaustively over the same universe); they are
+\* cheap and kept so that PropInv has every law of MC_TrafficLight
 LawPartition == Partition(cyc)
 LawCovers    == Covers(cyc)
-LawPeriodic  == Periodic(cyc, off, t)
-LawInOrder   == InOrder(cyc, off)
-LawBeforeOffset == t < off => StateAt(cyc, off, t) = StateAt(cyc, off, t + Total(cyc))
-ActStepLaw == LET i == ElemAt(cyc, off, t) j == ElemAt(cyc, off, t') IN j = i \/ j = (i % Len(cyc)) + 1
-\* the laws about TIME (unbounded here).  LawPartition / LawCovers / LawInOrder do not mention t: TLC checks them
-\* exhaustively over the same universe of cycles and offsets, there is no history to unbound (PropStatic is available
-\* as an extra obligation: --init=IndInit --inv=PropStatic --length=0)
-PropInv == LawPeriodic /\ LawBeforeOffset
-PropStatic == LawPartition /\ LawCovers /\ LawInOrder
-PropAct == ActStepLaw
+LawTotal     == Total(cyc) \in 1..MaxTotal          \* the conjunctions over m = 1..MaxTotal below cover every cycle
+InOrderM(m)  == Total(cyc) = m => \A i \in DOMAIN cyc : \A kk \in 0..MaxDur - 1 :
+                    kk < cyc[i].d => ElemAtM(m, cyc, off, off + SumTo(cyc, i - 1) + kk) = i
+LawInOrder   == ForAllTotals(InOrderM)
+\* stepping controller = closed form of the statement, at every t
+AgreeM(m)    == Total(cyc) = m => (el = ElemAtM(m, cyc, off, t) /\ StateAtM(m, cyc, off, t) = cyc[el].c)
+LawAgree     == ForAllTotals(AgreeM)
+\* LawPeriodic (and its special case LawBeforeOffset: t < off) for every t
+PeriodicM(m) == Total(cyc) = m => StateAtM(m, cyc, off, t + m) = StateAtM(m, cyc, off, t)
+LawPeriodic  == ForAllTotals(PeriodicM)
+PropInv      == LawTotal /\ LawPartition /\ LawCovers /\ LawInOrder /\ LawAgree /\ LawPeriodic
+\* StepLaw: stepping time by one stays in the element or moves to the next one (cyclically)
+StepM(m)     == Total(cyc) = m => LET i == ElemAtM(m, cyc, off, t) j == ElemAtM(m, cyc, off, t') IN j = i \/ j = (i % Len(cyc)) + 1
+ActStepLaw   == ForAllTotals(StepM)
+PropAct      == ActStepLaw
 
 (* ---- the inductive invariant ---------------------------------------------------------------------------------- *)
 TypeOK == CycleOK(cyc) /\ off \in 0..MaxOff /\ t >= 0 /\ el \in DOMAIN cyc
 IndInv ==
     /\ TypeOK
-    \* the stepping controller agrees with the closed form at every time step
-    /\ el = ElemAt(cyc, off, t)
-    /\ pos = Phase(cyc, off, t) - SumTo(cyc, el - 1)
-    /\ pos < cyc[el].d
+    /\ 0 <= pos /\ pos < cyc[el].d
+    /\ t - off = Times(per, Total(cyc)) + SumTo(cyc, el - 1) + pos
 
-IndInit == cyc = Gen(MaxElems) /\ off = Gen(1) /\ t = Gen(1) /\ el = Gen(1) /\ pos = Gen(1) /\ IndInv
-
-LemmaPhase == Phase(cyc, off, t + Total(cyc)) = Phase(cyc, off, t)
-LemmaTotal == Total(cyc) \in 1..MaxTotal
-TypeInit == cyc = Gen(MaxElems) /\ off = Gen(1) /\ t = Gen(1) /\ el = Gen(1) /\ pos = Gen(1) /\ TypeOK
+IndInit == cyc = Gen(MaxElems) /\ off = Gen(1) /\ t = Gen(1) /\ el = Gen(1) /\ pos = Gen(1) /\ per = Gen(1) /\ IndInv
 =====================================================================================
